@@ -601,6 +601,16 @@ impl C06 {
                 c
             }
             "empty" => HCirc::new(n),
+            "deeper" => {
+                // 5..8 qubits, 15..45 gates, at most 5 non-Clifford gates
+                let n = 5 + d.choose("dn", 4);
+                let ng = 15 + d.choose("dng", 31);
+                let mut c = gen::random_circuit(d, n, ng, GateMix { allow_swap: true, ..base }, 5);
+                if d.coin("didle", 3, 4) {
+                    ensure_no_idle(d, &mut c);
+                }
+                c
+            }
             "wide" => {
                 // 24..48 qubits as a product of 1..3-qubit blocks (the oracle multiplies the block
                 // answers): joint probabilities far below single precision, long -a / -e strings
@@ -748,6 +758,7 @@ impl Property for C06 {
             SubBatch { name: "faults", quick: 800, thorough: 8_000 },
             SubBatch { name: "stats", quick: 48, thorough: 600 },
             SubBatch { name: "wide", quick: 160, thorough: 4_000 },
+            SubBatch { name: "deeper", quick: 1_200, thorough: 30_000 },
         ]
     }
     fn expected_probes(&self) -> Vec<&'static str> {
@@ -826,6 +837,7 @@ impl Property for C06 {
                 (q, Mode::ChildFaults(inf, outf))
             }
             "stats" => (Query::Shots(if tier == Tier::Thorough { 2000 } else { 400 }), Mode::InProcess),
+            "deeper" => (gen_query(d, n, 6), Mode::InProcess),
             "wide" => {
                 let q = match gen_query(d, n, 3) {
                     Query::Shots(k) => Query::Shots(k.min(3)),
